@@ -154,6 +154,9 @@ func runBatch(sh loopShape, deadline int, explicit bool, conc, route int) *tBatc
 			s.ctx, s.release = context.WithDeadline(ctxBG, time.Now().Add(-time.Second))
 		case deadline == 0:
 			s.ctx, s.release = context.WithCancel(ctxBG) // never cancelled before the count
+		case explicit && i%2 == 1:
+			// cancelled at the chosen moment although its own deadline is far away
+			s.ctx, s.release = context.WithTimeout(ctxBG, d+30*time.Second)
 		case explicit:
 			s.ctx, s.release = context.WithCancel(ctxBG)
 		default:
@@ -393,6 +396,22 @@ type routeCase struct {
 	Go      interface{}   `json:"go,omitempty"`
 }
 
+// stopAfter: a context that ends after d - by its deadline, by a cancellation without any deadline, or by a
+// cancellation long before its deadline (k picks which)
+func stopAfter(d time.Duration, k int) (context.Context, context.CancelFunc) {
+	switch k % 3 {
+	case 1:
+		ctx, cancel := context.WithCancel(context.Background())
+		t := time.AfterFunc(d, cancel)
+		return ctx, func() { t.Stop(); cancel() }
+	case 2:
+		ctx, cancel := context.WithTimeout(context.Background(), d+30*time.Second)
+		t := time.AfterFunc(d, cancel)
+		return ctx, func() { t.Stop(); cancel() }
+	}
+	return context.WithTimeout(context.Background(), d)
+}
+
 func (g *G) loopProg() *Prog {
 	p := &Prog{Term: "loop"}
 	for k := g.intn(3); k > 0; k-- {
@@ -517,7 +536,7 @@ func jsrouteComponent(g *G, n int, opts map[string]string) *Out {
 		ctl := &core.Control{Limit: c.Limit}
 		t0 := time.Now()
 		// the deadline concerns exactly one execution: nothing interpreted runs after the endless script
-		lctx, lcancel := context.WithTimeout(context.Background(), routeDeadline)
+		lctx, lcancel := stopAfter(routeDeadline, len(o.Cases))
 		rl := jsrtWalk(lctx, specLoop, c.State.core(), deepCopy(c.Msgs, nil).([]interface{}), ctl, nil)
 		lcancel()
 		elapsed := time.Since(t0)
